@@ -170,6 +170,17 @@ theorem step_files (env : Env) (fs fs' : FS) (c : Call) (r : Ret) (h : Prog.Step
         · cases h
         · exact h
       · right; simp [Call.fileTargets, h]
+    case renameLink s d =>
+      split at hq <;> (try exact Or.inl hq)
+      split at hq <;> (try exact Or.inl hq)
+      split at hq <;> (try exact Or.inl hq)
+      rcases key _ _ _ hq with h | h
+      · left
+        rw [FS.get_del] at h
+        split at h
+        · cases h
+        · exact h
+      · subst h; simp at hq
     case openAppend p =>
       split at hq <;> (try exact Or.inl hq)
       split at hq <;> (try exact Or.inl hq)
@@ -230,6 +241,13 @@ theorem step_files (env : Env) (fs fs' : FS) (c : Call) (r : Ret) (h : Prog.Step
         · cases hq
         · exact Or.inl hq
     case now => exact Or.inl hq
+    case isLink p => split at hq <;> exact Or.inl hq
+    case mkTempLink dir t =>
+      split at hq
+      · rcases key _ _ _ hq with h | h
+        · exact Or.inl h
+        · subst h; simp at hq
+      · exact Or.inl hq
 
 /-- The same for the state a kill in the middle of the call leaves behind. -/
 theorem torn_files (env : Env) (fs : FS) (t : Nat) (c : Call) (q : Path) (b : Bytes)
@@ -338,10 +356,10 @@ namespace Cacache
 def Call.touches (fs : FS) (c : Call) (q : Path) : Prop :=
   match c with
   | .mkdirP p => q <+: p
-  | .mkTemp dir => q = dir ++ [tmpName fs.next]
+  | .mkTemp dir | .mkTempLink dir _ => q = dir ++ [tmpName fs.next]
   | .fallocate p _ | .writeAt p _ _ | .truncate p _ | .openAppend p | .appendWrite p _
   | .unlink p => q = p
-  | .rename s d => q = s ∨ q = d
+  | .rename s d | .renameLink s d => q = s ∨ q = d
   | .hardLink _ d | .symlink _ d | .reflink _ d => q = d
   | .copyFile s d => q ∈ Call.fileTargets fs (.copyFile s d)
   | .removeTree p => p <+: q
@@ -406,6 +424,11 @@ theorem step_frame (env : Env) (fs fs' : FS) (c : Call) (r : Ret) (h : Step env 
       split <;> (try rfl)
       split <;> (try rfl)
       rw [FS.get_put_ne _ _ (fun e => hq (Or.inr e)), FS.get_del_ne _ (fun e => hq (Or.inl e))]
+    case renameLink s d =>
+      split <;> (try rfl)
+      split <;> (try rfl)
+      split <;> (try rfl)
+      rw [FS.get_put_ne _ _ (fun e => hq (Or.inr e)), FS.get_del_ne _ (fun e => hq (Or.inl e))]
     case openAppend p =>
       split <;> (try rfl)
       split <;> first | rfl | exact FS.get_put_ne _ _ hq
@@ -458,6 +481,8 @@ theorem step_frame (env : Env) (fs fs' : FS) (c : Call) (r : Ret) (h : Step env 
         · exact hq (e ▸ List.prefix_refl _)
         · exact hq (FS.below_prefix fs p q m')
       · exact FS.get_del_ne _ (fun e => hq (e ▸ List.prefix_refl _))
+    case isLink p => split <;> rfl
+    case mkTempLink dir t => split <;> first | rfl | exact FS.get_put_ne _ _ hq
 
 end Cacache
 
